@@ -315,22 +315,28 @@ func mergeAndPersistInvertedSection(segments []*SegmentBase, dropsIn []*roaring.
 
 		fdvReadersAvailable := false
 		var dvIterClone *docValueReader
-		for segmentI, segment := range segmentsInFocus {
+		// every input is consulted, not only those in focus (whose dictionary of
+		// this field is non-empty): a document can have doc values in a field
+		// without any term (the encoded shape of a geo shape field)
+		for segmentI, segment := range segments {
 			// check for the closure in meantime
 			if isClosed(closeCh) {
 				return nil, 0, seg.ErrClosed
 			}
 
 			fieldIDPlus1 := uint16(segment.fieldsMap[fieldName])
+			if fieldIDPlus1 == 0 {
+				continue
+			}
 			if dvIter, exists := segment.fieldDvReaders[SectionInvertedTextIndex][fieldIDPlus1-1]; exists &&
 				dvIter != nil {
 				fdvReadersAvailable = true
 				dvIterClone = dvIter.cloneInto(dvIterClone)
 				err = dvIterClone.iterateAllDocValues(segment, func(docNum uint64, terms []byte) error {
-					if newDocNums[segmentI][docNum] == docDropped {
+					if newDocNumsIn[segmentI][docNum] == docDropped {
 						return nil
 					}
-					err := fdvEncoder.Add(newDocNums[segmentI][docNum], terms)
+					err := fdvEncoder.Add(newDocNumsIn[segmentI][docNum], terms)
 					if err != nil {
 						return err
 					}
